@@ -295,6 +295,16 @@ def load_findings(pid):
     return [f for f in json.load(open(p))["findings"] if f["property"] == pid]
 
 
+def _repo_state():
+    try:
+        head = subprocess.run(["git", "-C", REPO, "rev-parse", "--short", "HEAD"], capture_output=True, text=True, timeout=20).stdout.strip()
+        dirty = subprocess.run(["git", "-C", REPO, "status", "--porcelain", "--", "src", "cmake"], capture_output=True, text=True, timeout=20).stdout.strip()
+        return {"path": REPO, "head": head, "working_tree_modified": bool(dirty),
+                "note": "the encodings and harnesses are regenerated from this working tree on every run"}
+    except Exception as ex:
+        return {"path": REPO, "error": str(ex)}
+
+
 # --------------------------------------------------------------------------------------------- driver
 def main(pid, tier, obligations, assumptions, explanation, level="other", trusted=(), outside=()):
     """Run all obligations of one property, print verdict lines, write evidence, return exit code."""
@@ -362,6 +372,7 @@ def main(pid, tier, obligations, assumptions, explanation, level="other", truste
             "samples": samples[:24] or [{"note": "no samples recorded"}],
             "obligation_detail": [dict(ob.describe(), **r.as_dict()) for ob, r in results],
             "checker_cmd": f"./check {pid} --tier {tier}",
+            "code_under_check": _repo_state(),
             "trusted_base": list(trusted),
             "outside_the_claim": list(outside),
             "solver_wall_s_total": round(sum(r.cpu_s for _, r in results), 1),
